@@ -451,8 +451,16 @@ func flushLog() {
 			case v := <-logQueue:
 				v.writer.Write(v.value)
 			case <-syncDone.Done():
-				asyncCancel()
-				return
+				// write what is still queued before reporting the flush as done
+				for {
+					select {
+					case v := <-logQueue:
+						v.writer.Write(v.value)
+					default:
+						asyncCancel()
+						return
+					}
+				}
 			}
 		}
 	}
